@@ -2,13 +2,13 @@ From Coq Require Import List Bool Ascii NArith ZArith.
 From TxVerif Require Import Lib.Bytes Lib.Verdict Spec.C20 Model.AddrMap.
 Import ListNotations.
 
-(* k_flags: the three finding predicates as computed by the Python mirror
-   (unheld_error, key_collision, stale_lookup); a mirror that disagrees counts as a difference *)
-Record case := { k_ops : list op; k_obs : list (list obs); k_flags : bool * bool * bool }.
+(* k_flags: the two open finding predicates as computed by the Python mirror
+   (key_collision, stale_lookup); a mirror that disagrees counts as a difference *)
+Record case := { k_ops : list op; k_obs : list (list obs); k_flags : bool * bool }.
 
-Definition flags_of (h : list op) : bool * bool * bool := (unheld_error h, key_collision h, stale_lookup h).
-Definition flags_eqb (a b : bool * bool * bool) : bool :=
-  let '(a1, a2, a3) := a in let '(b1, b2, b3) := b in Bool.eqb a1 b1 && Bool.eqb a2 b2 && Bool.eqb a3 b3.
+Definition flags_of (h : list op) : bool * bool := (key_collision h, stale_lookup h).
+Definition flags_eqb (a b : bool * bool) : bool :=
+  let '(a1, a2) := a in let '(b1, b2) := b in Bool.eqb a1 b1 && Bool.eqb a2 b2.
 
 Definition check (k : case) : verdict :=
   if negb (in_scope (k_ops k)) then VSkip else
